@@ -577,4 +577,85 @@ theorem validateBlocks_nonspace (mw mh : Rat) (bs : List Block) :
       simp only [Bool.false_eq_true, if_false, List.map_cons, List.flatten_cons, textsOf_append,
         nonspace_append, ih, dropped_block_blank mw mh b hk, List.nil_append]
 
+/-! ## the element tree after the repair 8ee0e52, id by id -/
+
+/-- `paragraphNotShown`, counted: what remains of the paragraph is what `shown` does not cover,
+what remains of `shown` is what the paragraph did not use (truncated subtractions) -/
+theorem count_notShown (shown ids : List Nat) (i : Nat) :
+    (notShown shown ids).1.count i = ids.count i - shown.count i ∧
+    (notShown shown ids).2.count i = shown.count i - ids.count i := by
+  induction ids generalizing shown with
+  | nil => simp [notShown]
+  | cons a r ih =>
+    unfold notShown
+    by_cases hm : a ∈ shown
+    · rw [if_pos hm]
+      have h1 := ih (shown.erase a)
+      have h2 : (shown.erase a).count i = shown.count i - if a == i then 1 else 0 := List.count_erase ..
+      have h3 : 0 < shown.count a := List.count_pos_iff.mpr hm
+      rw [List.count_cons]
+      by_cases hai : a = i
+      · subst hai
+        simp only [beq_self_eq_true, if_true] at h2 ⊢
+        omega
+      · have : (a == i) = false := by simpa using hai
+        simp only [this, Bool.false_eq_true, if_false] at h2 ⊢
+        omega
+    · rw [if_neg hm]
+      have h1 := ih shown
+      simp only [List.count_cons]
+      by_cases hai : a = i
+      · subst hai
+        have h0 : shown.count a = 0 := List.count_eq_zero.mpr hm
+        simp only [beq_self_eq_true, if_true]
+        omega
+      · have : (a == i) = false := by simpa using hai
+        simp only [this, Bool.false_eq_true, if_false]
+        omega
+
+theorem notShown_nil (ids : List Nat) : notShown [] ids = (ids, []) := by
+  induction ids with
+  | nil => rfl
+  | cons a r ih => unfold notShown; simp [ih]
+
+theorem ids_remainingPars (rbox : Elem → List Nat → Box) (shown : List Nat) (p : Elem) (r : List Elem) :
+    (remainingPars rbox shown (p :: r)).flatMap (·.ids) =
+      (notShown shown p.ids).1 ++ (remainingPars rbox (notShown shown p.ids).2 r).flatMap (·.ids) := by
+  rw [remainingPars]
+  split
+  · rfl
+  · split
+    · rename_i h; rw [List.isEmpty_iff.mp h]; rfl
+    · rfl
+
+/-- the paragraphs of the repaired tree show of every id what `shown` does not cover -/
+theorem count_remainingPars (rbox : Elem → List Nat → Box) (shown : List Nat) (ps : List Elem) (i : Nat) :
+    ((remainingPars rbox shown ps).flatMap (·.ids)).count i =
+      (ps.flatMap (·.ids)).count i - shown.count i := by
+  induction ps generalizing shown with
+  | nil => simp [remainingPars]
+  | cons p r ih =>
+    rw [ids_remainingPars, List.count_append, ih, List.flatMap_cons, List.count_append]
+    have h := count_notShown shown p.ids i
+    omega
+
+/-- the repaired element tree id by id: the headings it shows, the lists, and of the paragraphs
+what those do not cover -/
+theorem count_elementTree (rbox : Elem → List Nat → Box) (hs ls ps : List Elem) (i : Nat) :
+    ((elementTree rbox hs ls ps).flatMap (·.ids)).count i =
+      ((shownHeadings hs ls).flatMap (·.ids)).count i + (ls.flatMap (·.ids)).count i +
+        ((ps.flatMap (·.ids)).count i -
+          ((ls.flatMap (·.ids)).count i + ((shownHeadings hs ls).flatMap (·.ids)).count i)) := by
+  unfold elementTree
+  rw [List.flatMap_append, List.flatMap_append, List.count_append, List.count_append,
+    count_remainingPars, List.count_append]
+
+/-- without headings and lists the repaired tree is the paragraph list -/
+theorem remainingPars_nil (rbox : Elem → List Nat → Box) (ps : List Elem) : remainingPars rbox [] ps = ps := by
+  induction ps with
+  | nil => rfl
+  | cons p r ih =>
+    rw [remainingPars]
+    simp only [notShown_nil, beq_self_eq_true, if_true, ih]
+
 end Tabula.Layout
